@@ -357,6 +357,12 @@ func (h *Harness) Step(a Action) []Mismatch {
 				continue
 			}
 			k := int64(c.keepAlive) * int64(time.Second)
+			if c.keepAlive == 0 {
+				// keep-alive 0 switches the mechanism off in MQTT; this broker applies its
+				// minimum of 30 s instead (no listed property speaks about K = 0, so that
+				// policy is taken as it is)
+				k = 30 * int64(time.Second)
+			}
 			gap := h.Now - c.lastRecv
 			switch {
 			case gap*2 > 3*k:
